@@ -166,6 +166,56 @@ class Expander:
         return out
 
 
+def _type_refs(t):
+    if t is None:
+        return
+    if t.kind == 'ref':
+        yield t
+    elif t.kind == 'list':
+        yield from _type_refs(t.args['item'])
+    elif t.kind == 'map':
+        yield from _type_refs(t.args['key'])
+        yield from _type_refs(t.args['value'])
+
+
+def expected_imports(m, ns):
+    """Namespaces this namespace names in qualified references, by what the reference resolves to: the Api records
+    an imported namespace when (and only when) a type, alias, annotation or annotation type of it is referred to."""
+    by = {'data_type': set(), 'alias': set(), 'annotation': set(), 'annotation_type': set()}
+
+    def see_type(t):
+        for r in _type_refs(t):
+            if r.ns != ns.name:
+                d = m.lookup(r.ns, r.name)
+                by['alias' if d.kind == 'alias' else 'data_type'].add(r.ns)
+
+    def see_anns(anns):
+        for a in anns or ():
+            if a[0] != ns.name:
+                by['annotation'].add(a[0])
+
+    for d in ns.defs:
+        if d.kind in ('struct', 'union'):
+            if d.parent and d.parent[0] != ns.name:
+                by['data_type'].add(d.parent[0])
+            for f in m.own_fields(d):
+                see_type(f.type)
+                see_anns(f.anns)
+        elif d.kind == 'alias':
+            see_type(d.type)
+            see_anns(d.anns)
+        elif d.kind == 'route':
+            for t in (d.arg, d.result, d.error):
+                see_type(t)
+        elif d.kind == 'annotation':
+            if not isinstance(d.atype, str) and d.atype[1] != ns.name:
+                by['annotation_type'].add(d.atype[1])
+    # 'for_data_types' is compared exactly; the other recorded reasons (annotation types reached through
+    # applied annotations) follow an internal closure, so for aliases only inclusion is required
+    return {'for_data_types': sorted(by['data_type']),
+            'includes': UNSPEC, '_must_include': sorted(by['data_type'] | by['alias'])}
+
+
 def expect(m):
     ex = Expander(m)
     out = OrderedDict()
@@ -238,6 +288,7 @@ def expect(m):
                     'params': [{'name': p.name, 'type': type_tree(m, p.type),
                                 'default': (('lit', p.default[1]) if p.default else ('none',)),
                                 'doc': doc_of(p.doc)} for p in d.params]}
+        nd['imports'] = expected_imports(m, ns)
         # documented normal form: alphabetical
         nd['types'] = OrderedDict(sorted(nd['types'].items()))
         nd['aliases'] = OrderedDict(sorted(nd['aliases'].items()))
@@ -365,6 +416,9 @@ def observe(api):
                                                          for p in a.annotation_type.params))
             else:
                 nd['annotations'][a.name] = (type(a).__name__,)
+        nd['imports'] = {
+            'for_data_types': [n.name for n in ns.get_imported_namespaces(must_have_imported_data_type=True)],
+            'includes': [n.name for n in ns.get_imported_namespaces()], '_must_include': UNSPEC}
         for at in ns.annotation_types:
             nd['annotation_types'][at.name] = {
                 'doc': at.doc,
@@ -439,6 +493,8 @@ def cell_of(path):
     p = [str(x) for x in path]
     if p and p[0] == 'route_schema':
         return 'route_schema.' + (p[-1] if not p[-1].isdigit() else 'field')
+    if 'imports' in p:
+        return 'namespace.imports.' + p[p.index('imports') + 1]
     kinds = [x for x in p if x in ('types', 'aliases', 'routes', 'annotations', 'annotation_types', 'doc')]
     kind = kinds[0] if kinds else 'namespace'
     attrs = [x for x in p if x in ('doc', 'parent', 'fields', 'all_fields', 'subtypes', 'catch_all',
